@@ -953,6 +953,7 @@ func (lg *ledger) byCalleeReturns(p pred, at *ssa.BasicBlock, ctx *proofCtx) str
 	}
 	// flags known true here
 	flags := map[int]bool{}
+	nilErrs := map[int]bool{}
 	for _, f := range dominatingFacts(at) {
 		cond, truth := f.cond, f.truth
 		for {
@@ -964,6 +965,14 @@ func (lg *ledger) byCalleeReturns(p pred, at *ssa.BasicBlock, ctx *proofCtx) str
 		}
 		if fe, isEx := cond.(*ssa.Extract); isEx && fe.Tuple == ex.Tuple && truth {
 			flags[fe.Index] = true
+		}
+		// an error result known to be nil here
+		if bo, isBO := cond.(*ssa.BinOp); isBO && (bo.Op == token.EQL || bo.Op == token.NEQ) && truth == (bo.Op == token.EQL) {
+			for _, side := range [][2]ssa.Value{{bo.X, bo.Y}, {bo.Y, bo.X}} {
+				if fe, isEx := side[0].(*ssa.Extract); isEx && fe.Tuple == ex.Tuple && isNilConst(side[1]) && isErrorType(fe.Type()) {
+					nilErrs[fe.Index] = true
+				}
+			}
 		}
 	}
 	lgG := newLedger(lg.w, g)
@@ -979,6 +988,11 @@ func (lg *ledger) byCalleeReturns(p pred, at *ssa.BasicBlock, ctx *proofCtx) str
 				if c, isC := r.Results[j].(*ssa.Const); isC && c.Value != nil && c.Value.Kind() == constant.Bool && !constant.BoolVal(c.Value) {
 					excluded = true
 				}
+			}
+		}
+		for j := range nilErrs {
+			if j < len(r.Results) && definitelyNonNil(r.Results[j]) {
+				excluded = true // this return reports an error; the caller knows there was none
 			}
 		}
 		if excluded {
@@ -1216,6 +1230,12 @@ func (lg *ledger) byConstruction(p pred, at *ssa.BasicBlock, ctx *proofCtx) stri
 		}
 		if _, ok := reflectFunc(v, "Append"); ok && p.kinds&(1<<kSlice) != 0 {
 			return "reflect.Append yields a slice"
+		}
+		// v.Slice(i, j) is a slice when v is an array or a slice (and a string when v is a string)
+		if recv, _, ok := reflectValueCall(v, "Slice"); ok && p.kinds&(1<<kSlice) != 0 {
+			if ok1, why := lg.proveIn(pred{kind: pKindIn, v: recv, kinds: kindSet(kArray, kSlice)}, at, ctx); ok1 {
+				return "Slice of an array or slice is a slice (" + why + ")"
+			}
 		}
 	case pTypeKindIn:
 		// Type(v).Kind() == Kind(v)
@@ -1761,6 +1781,9 @@ func (lg *ledger) boundFacts(b *ssa.BasicBlock) (out []diffC) {
 			case *ssa.Call:
 				if n := pureCallName(x); n == "len" || n == "Len" || n == "Type.NumIn" || n == "cap" {
 					out = append(out, diffC{"0", lg.key(x), 0}) // >= 0
+				}
+				if pkg, name := staticCalleeName(x); pkg == "unicode/utf8" && strings.HasPrefix(name, "RuneCount") {
+					out = append(out, diffC{"0", lg.key(x), 0}) // a count is >= 0
 				}
 				if pkg, name := staticCalleeName(x); (pkg == "strings" || pkg == "bytes") && len(x.Call.Args) >= 1 {
 					// the index functions return -1 or a position inside their first operand
